@@ -854,7 +854,7 @@ class Task:
         Setter for predecessor tasks
         :param value: new predecessors
         """
-        value = _to_list(value)
+        value = _unique_tasks(_to_list(value))
         _check_no_nones_in_list(value, 'predecessors')
 
         parents = self.all_parents
@@ -905,7 +905,7 @@ class Task:
         Setter for direct successors
         :param value: new direct successors
         """
-        value = _to_list(value)
+        value = _unique_tasks(_to_list(value))
         _check_no_nones_in_list(value, 'successors')
 
         parents = self.all_parents
